@@ -377,11 +377,23 @@ set_operation(PyObject *s1, PyObject *s2,
         }
 #endif
 
+#ifdef BTREES_VERIF
+      if (verif_alloc_should_fail()) {
+        PyErr_NoMemory();
+        goto err;
+      }
+#endif
       UNLESS(r=BUCKET(PyObject_CallObject(OBJECT(&BucketType), NULL)))
         goto err;
     }
   else
     {
+#ifdef BTREES_VERIF
+      if (verif_alloc_should_fail()) {
+        PyErr_NoMemory();
+        goto err;
+      }
+#endif
       UNLESS(r=BUCKET(PyObject_CallObject(OBJECT(&SetType), NULL)))
         goto err;
     }
@@ -608,6 +620,10 @@ multiunion_m(PyObject *ignored, PyObject *args)
     return NULL;
 
   /* Construct an empty result set. */
+#ifdef BTREES_VERIF
+  if (verif_alloc_should_fail())
+    return PyErr_NoMemory();
+#endif
   result = BUCKET(PyObject_CallObject(OBJECT(&SetType), NULL));
   if (result == NULL)
     return NULL;
